@@ -2,7 +2,7 @@
   C11: from the top-level invariant to `shape = interp`.
 -/
 import FontcProofs.FeaSimTop
-import FontcProofs.FeaLookupSem
+import FontcProofs.FeaRunSem
 
 namespace Fontc.FeaCompile
 open Cmp
@@ -338,9 +338,10 @@ theorem correct_of_topInv (fx : Fixes) (p : Program) (U : List (List Glyph)) (dl
       rcases hents e hmem with h | h
       · have := entry_isPos e hcomp.1 hcomp.2.1
         rw [hc.2] at this
-        rcases h with ⟨hm, _⟩ | ⟨hl, _⟩
+        rcases h with ⟨hm, _⟩ | ⟨hl, _⟩ | ⟨hl, _⟩
         · generalize headKind e.lookup.rules = k at hm this
           cases k <;> simp [Kind.isMapGsub, Kind.isPos] at hm this
+        · rw [hl] at this; simp [Kind.isPos] at this
         · rw [hl] at this; simp [Kind.isPos] at this
       · exact h
     obtain ⟨hk, hnd⟩ := hok
